@@ -16,7 +16,8 @@ DECIDES = ('CTCSkipRemover by lane-level dataflow: ONE cycle of the extracted gu
            'given by a layout function of n, oldest first; the layout is found among top/bottom aligned, both orders). '
            '(a) a lane is dropped exactly when ctrl[i] & data byte i == 0x3C (K28.1) on a valid word; (b) for each of the 16 '
            'skip masks the compacted data / ctrl word read by the buffer push carries the non-SKP lanes in ascending order '
-           'packed from lane 0 and the byte count is 4 - popcount(mask); (c) for EVERY n of the invariant region (0..7 and '
+           'packed from lane 0 and the byte count is 4 - popcount(mask) [(a) and (b) localise a failure of (c): a deviation of the '
+           'intermediate compacted word is reported only for input classes on which the whole step (c) is wrong too]; (c) for EVERY n of the invariant region (0..7 and '
            'whatever else the count can reach, fixpoint over the count alone from reset under all inputs with source.ready=1) '
            'x every input class: new buffer = (old pending ++ new non-SKP bytes) minus the bytes output, in order, data and '
            'ctrl lanes routed identically, new count = its length and representable without wrap; when source.valid the output '
@@ -24,8 +25,8 @@ DECIDES = ('CTCSkipRemover by lane-level dataflow: ONE cycle of the extracted gu
            'without a valid input (except the word taken); sink.ready is 1 in every state of the region (the PHY cannot be '
            'stalled); the region fits the buffer register; reset state is empty; widths of buffer / count registers; '
            '(d) USB3PhysicalLayer: the one CTCSkipRemover has source.ready driven unconditionally by its consumer whose '
-           'sink.ready is the constant 1, that consumer takes source valid/data/ctrl, sink data and ctrl come from the same '
-           'PHY word. Thorough tier: (a) again for all 256 byte values x ctrl of each lane concretely. ')
+           'sink.ready is the constant 1; sink data and ctrl come unconditionally from the same PHY word '
+           '(rx_data / rx_datak). Thorough tier: (a) again for all 256 byte values x ctrl of each lane concretely. ')
 NOT_DECIDED = ('behaviour under back-pressure (source.ready low: the count can then reach 8, for which no output case exists) '
                '-- excluded by the property; that the composition of the per-cycle steps over an unbounded input sequence '
                'equals the filtered sequence is the induction argument itself (base + step are decided, the induction is '
@@ -352,6 +353,15 @@ class Cycle:
         raise AnalysisError('C32: expression form not evaluated: %s' % e.canon()[:200])
 
     def bitop(self, op, x, y, e):
+        # a plain constant operand (the same in every input class) makes the operator a pass-through or a constant:
+        # the identity of the other bit is kept, which is what zero-extension, shift-and-or packing and masks amount to
+        for p, r in ((x, y), (y, x)):
+            if r.__class__ is int:
+                if op == '&':
+                    return p if r else 0
+                if op == '|':
+                    return 1 if r else p
+                return p if not r else (1 - p if p.__class__ is int else self._flip(p, e))
         a, b = kv(x), kv(y)
         if a is not None and b is not None:
             return (a & b) if op == '&' else (a | b) if op == '|' else (a ^ b)
@@ -374,9 +384,15 @@ class Cycle:
                 return y
             if b == 0:
                 return x
-        if x.__class__ is tuple and y.__class__ is tuple and x[0] == y[0]:
+        if x[0] == y[0]:
             return x if op in ('&', '|') else 0
         raise Undecided('C32: %s of two symbolic bits in %s' % (op, e.canon()[:160]))
+
+    def _flip(self, p, e):
+        v = kv(p)
+        if v is None:
+            raise Undecided('C32: complement of a symbolic bit in %s' % e.canon()[:160])
+        return 1 - v
 
     def equal(self, a, b, e):
         """1 / 0 if a == b is decided on this input class (bit values, identities, known-different data bytes)."""
@@ -519,11 +535,12 @@ def check_remover(ctx):
     ctx.need(regs == {CNT, DBUF, CBUF}, 'CTCSkipRemover keeps exactly the count, data buffer and ctrl buffer registers (found %s)' % sorted(regs))
     scnt, sd, sc = ir.signals[CNT], ir.signals[DBUF], ir.signals[CBUF]
     ctx.need(None not in (scnt.w, sd.w, sc.w), 'register widths are known')
-    W = min(sd.w // 8, sc.w)
-    NSPEC = 2 * B - 1                # largest pending count when a word leaves whenever one is complete
-    ctx.ob('C32.shape', 'CTCSkipRemover.buffer.lanes', sd.w == 8 * sc.w and W >= NSPEC, sd.loc,
-           'the data buffer (%s bits) must have 8 bits per ctrl buffer bit (%s) and at least %d byte lanes: %d bytes pending '
-           'plus up to %d new ones, minus the word that leaves' % (sd.w, sc.w, NSPEC, B - 1, B))
+    WD, WC = sd.w // 8, sc.w         # byte lanes of the data buffer / of the ctrl buffer
+    W = min(WD, WC)
+    NSPEC = 2 * B - 1                # largest pending count when a word leaves as soon as one is complete
+    ctx.ob('C32.shape', 'CTCSkipRemover.buffer.lanes', W >= NSPEC, sd.loc,
+           'the data buffer (%s bits) and the ctrl buffer (%s bits) must each have at least %d byte lanes: with %d bytes pending no '
+           'word leaves and up to %d new bytes arrive' % (sd.w, sc.w, NSPEC, B - 1, B))
     ctx.ob('C32.shape', 'CTCSkipRemover.count.range', (1 << scnt.w) > NSPEC, scnt.loc,
            'the byte count register %s (width %s, range %s) must hold 0..%d' % (CNT, scnt.w, scnt.rng, NSPEC))
     ctx.ob('C32.reset', 'CTCSkipRemover.count.reset-empty', (scnt.init or 0) == 0, scnt.loc,
@@ -544,7 +561,7 @@ def check_remover(ctx):
     for s in (VD, VC, VN):
         ctx.need(not (m.cone(s) & dyn), 'the compacted word signal %s depends on the input word only (reads %s)' % (s, sorted(m.cone(s) & dyn)))
     static_names = frozenset(s for s in m.comb if not (m.cone(s) & dyn))
-    roles = (SV, SR, SP, SC, OV, ORDY, OP, OC, B, W, NSPEC, CNT, DBUF, CBUF, VD, VC, VN, static_names)
+    roles = (SV, SR, SP, SC, OV, ORDY, OP, OC, B, W, WD, WC, NSPEC, CNT, DBUF, CBUF, VD, VC, VN, static_names)
 
     # ---- constants the input data is compared with -> exact partition of the byte values.  Found by refinement: start
     # with the SKP value; a comparison of a symbolic data byte with another constant makes that constant a class of its own.
@@ -564,7 +581,7 @@ def check_remover(ctx):
 
 
 def sweep(ctx, ir, m, consts, roles):
-    (SV, SR, SP, SC, OV, ORDY, OP, OC, B, W, NSPEC, CNT, DBUF, CBUF, VD, VC, VN, static_names) = roles
+    (SV, SR, SP, SC, OV, ORDY, OP, OC, B, W, WD, WC, NSPEC, CNT, DBUF, CBUF, VD, VC, VN, static_names) = roles
     scnt, sd, sc = ir.signals[CNT], ir.signals[DBUF], ir.signals[CBUF]
     dclasses = sorted(consts) + ['*']
     lane_classes = [(k, d) for k in (0, 1) for d in dclasses]
@@ -632,7 +649,7 @@ def sweep(ctx, ir, m, consts, roles):
                 rows.append(dict(n=n, valid=valid, combo=combo, ov=ov, rdy=rdy, nn=nnk,
                                  od=data_tokens(c.sig(OP).bits, B) if ov else None, oc=ctrl_tokens(c.sig(OC).bits, B) if ov else None,
                                  wod=c.win.get(OP), woc=c.win.get(OC), wov=c.win.get(OV), wrdy=c.win.get(SR),
-                                 nd=data_tokens(nd.bits, W), nc=ctrl_tokens(nc.bits, W), wd=wd, wc=wc, wn=wn,
+                                 nd=data_tokens(nd.bits, WD), nc=ctrl_tokens(nc.bits, WC), wd=wd, wc=wc, wn=wn,
                                  wrapped=[x for x in c.wrapped if x[0] == CNT]))
                 n_cycles += 1
         done[n] = rows
@@ -655,17 +672,19 @@ def sweep(ctx, ir, m, consts, roles):
     # ---- layout-independent facts
     facts = {}          # key -> (msg, loc)
 
-    def fail(store, key, msg, a):
+    def fail(store, key, msg, a, sig=None):
         if key not in store:
-            store[key] = ('%s%s' % (msg, (' -- deciding statement: ' + q.fmt(a)) if a is not None else ' -- no statement drives it'),
-                          a.loc if a is not None else None)
+            si = ir.signals.get(sig) if sig else None
+            store[key] = ('%s%s' % (msg, (' -- deciding statement: ' + q.fmt(a)) if a is not None else
+                                    ' -- no statement assigns %s here (it keeps its default / old value)' % (sig or 'it')),
+                          a.loc if a is not None else (si.loc if si is not None else None))
 
     for n in region:
         for r in done[n]:
             if r['ov'] and n < B:
-                fail(facts, 'valid', 'source.valid is raised with %s: fewer than %d bytes pending' % (cex_text(r), B), r['wov'])
+                fail(facts, 'valid', 'source.valid is raised with %s: fewer than %d bytes pending' % (cex_text(r), B), r['wov'], OV)
             if n in reach and not r['rdy']:
-                fail(facts, 'ready', 'sink.ready is low with %s' % cex_text(r), r['wrdy'])
+                fail(facts, 'ready', 'sink.ready is low with %s' % cex_text(r), r['wrdy'], SR)
             if n in reach and r['wrapped']:
                 _, num, a = r['wrapped'][0]
                 fail(facts, 'wrap', 'the next byte count %d does not fit the %d-bit count register with %s' % (num, scnt.w, cex_text(r)), a)
@@ -673,7 +692,7 @@ def sweep(ctx, ir, m, consts, roles):
     if over:
         bad = [r for n in sorted(reach) for r in done[n] if r['nn'] == over[0]]
         fail(facts, 'capacity', 'the byte count can reach %d but the buffer holds %d bytes (%s)' % (
-            over[0], W, cex_text(bad[0]) if bad else 'reset value'), bad[0]['wn'] if bad else None)
+            over[0], W, cex_text(bad[0]) if bad else 'reset value'), bad[0]['wn'] if bad else None, CNT)
 
     # ---- layout-dependent checks under each candidate layout; keep the best
     def judge(layout):
@@ -681,38 +700,41 @@ def sweep(ctx, ir, m, consts, roles):
         for n in region:
             if n > W:
                 continue
-            P = [('D', l) for l in layout(n, W)]
+            Pd, Pc = [('D', l) for l in layout(n, WD)], [('D', l) for l in layout(n, WC)]
             for r in done[n]:
                 out = bool(r['ov'])
                 if out and n >= B:
-                    if r['od'] != P[:B]:
+                    if r['od'] != Pd[:B]:
                         fail(F, (n, 'out.data'), 'source.data carries %s, the %d oldest pending bytes are %s (%s)' % (
-                            show(r['od']), B, show(P[:B]), cex_text(r)), r['wod'])
-                    if r['oc'] != P[:B]:
-                        fail(F, (n, 'out.ctrl'), 'source.ctrl carries the ctrl bits of %s, the %d oldest pending bytes are %s (%s)' % (
-                            show(r['oc']), B, show(P[:B]), cex_text(r)), r['woc'])
+                            show(r['od']), B, show(Pd[:B]), cex_text(r)), r['wod'], OP)
+                    if r['oc'] != Pc[:B]:
+                        fail(F, (n, 'out.ctrl'), 'source.ctrl carries the ctrl bits of %s, those of the %d oldest pending bytes are %s (%s)' % (
+                            show(r['oc']), B, show(Pc[:B]), cex_text(r)), r['woc'], OC)
                 new = spec_kept(r['combo']) if (r['valid'] and r['rdy']) else []
-                Q = (P + new)[B if out else 0:]
+                drop = B if out else 0
+                Qd, Qc = (Pd + new)[drop:], (Pc + new)[drop:]
                 kinds = ('append.data', 'append.ctrl', 'count') if r['valid'] else ('idle', 'idle', 'idle')
-                what = ('pending %s ++ new %s%s' % (show(P), show(new), ' minus the word output' if out else '')) if r['valid'] else \
-                    ('pending %s%s, no input word' % (show(P), ' minus the word output' if out else ''))
+                def what(P):
+                    return ('pending %s ++ new %s%s' % (show(P), show(new), ' minus the word output' if out else '')) if r['valid'] else \
+                        ('pending %s%s, no input word' % (show(P), ' minus the word output' if out else ''))
                 bad = False
-                if r['nn'] != len(Q):
+                if r['nn'] != len(Qd):
                     bad = True
-                    fail(F, (n, kinds[2]), 'the byte count becomes %d, must become %d = %s (%s)' % (r['nn'], len(Q), what, cex_text(r)), r['wn'])
-                if len(Q) > W:
+                    fail(F, (n, kinds[2]), 'the byte count becomes %d, must become %d = %s (%s)' % (r['nn'], len(Qd), what(Pd), cex_text(r)), r['wn'], CNT)
+                if len(Qd) > W:
                     bad = True
-                    fail(F, (n, kinds[0]), '%d bytes must stay pending but the buffer has %d lanes (%s)' % (len(Q), W, cex_text(r)), r['wd'])
+                    fail(F, (n, kinds[0]), '%d bytes must stay pending but the buffer has %d lanes (%s)' % (len(Qd), W, cex_text(r)), r['wd'], DBUF)
                 else:
-                    L2 = layout(len(Q), W)
-                    gd, gc = [r['nd'][l] for l in L2], [r['nc'][l] for l in L2]
-                    if gd != Q:
+                    Ld, Lc = layout(len(Qd), WD), layout(len(Qc), WC)
+                    gd, gc = [r['nd'][l] for l in Ld], [r['nc'][l] for l in Lc]
+                    if gd != Qd:
                         bad = True
-                        fail(F, (n, kinds[0]), 'data buffer lanes %s hold %s, must hold %s = %s (%s)' % (L2, show(gd), show(Q), what, cex_text(r)), r['wd'])
-                    if gc != Q:
+                        fail(F, (n, kinds[0]), 'data buffer lanes %s hold %s, must hold %s = %s (%s)' % (
+                            Ld, show(gd), show(Qd), what(Pd), cex_text(r)), r['wd'], DBUF)
+                    if gc != Qc:
                         bad = True
                         fail(F, (n, kinds[1]), 'ctrl buffer lanes %s hold the ctrl bits of %s, must hold those of %s = %s (%s)' % (
-                            L2, show(gc), show(Q), what, cex_text(r)), r['wc'])
+                            Lc, show(gc), show(Qc), what(Pc), cex_text(r)), r['wc'], CBUF)
                 if bad and r['valid']:
                     badc.add(r['combo'])
         return F, badc
@@ -725,11 +747,13 @@ def sweep(ctx, ir, m, consts, roles):
         if not F:
             break
     lname, layout, F, badc = best
-    ctx.note('CTCSkipRemover: buffer layout invariant = %s (%d lanes); invariant region of the byte count %s, reachable from reset %s; '
-             '%d one-cycle evaluations over %d input classes per lane %s' % (lname, W, region, sorted(reach), n_cycles, len(lane_classes), dclasses))
+    notes = []
+    notes.append('CTCSkipRemover: buffer layout invariant = %s (%d lanes); invariant region of the byte count %s, reachable from reset %s; '
+             '%d one-cycle evaluations over %d input classes per lane %s' % (lname, W, region, sorted(reach), n_cycles, len(lane_classes),
+                                                                                  ['%#x' % d if d != '*' else 'other' for d in dclasses]))
     hidden = [v for v in range(scnt.rng[1] if scnt.rng else (1 << scnt.w)) if v not in reach]
     if hidden:
-        ctx.note('CTCSkipRemover: count values %s are in the declared range of %s but not reachable with source.ready = 1 (not examined)' % (hidden, CNT))
+        notes.append('CTCSkipRemover: count values %s are in the declared range of %s but not reachable with source.ready = 1 (not examined)' % (hidden, CNT))
 
     # ---- (a) + (b): the compacted word per input class (blamed only where the end-to-end step is wrong too)
     detect, table = {}, {}
@@ -753,17 +777,17 @@ def sweep(ctx, ir, m, consts, roles):
                     fail(detect, i, 'input lane %d with ctrl=%d data=%s is %s; a lane is a SKP exactly when ctrl is set and the data '
                          'byte is %#x (input lanes %s, compacted word %s count %d)' % (
                              i, k, 'other' if d == '*' else '%#04x' % d, 'removed' if (impl >> i) & 1 else 'kept', SKP_SYMBOL,
-                             show_class(combo), show(td), cntv), c.win.get(VN) or c.win.get(VD))
+                             show_class(combo), show(td), cntv), c.win.get(VN) or c.win.get(VD), VN)
             continue
         if not okd:
             fail(table, (mask, 'data'), 'compacted data word is %s, must start with the non-SKP lanes %s in order (input lanes %s)' % (
-                show(td), show(kept), show_class(combo)), c.win.get(VD))
+                show(td), show(kept), show_class(combo)), c.win.get(VD), VD)
         if not okc:
             fail(table, (mask, 'ctrl'), 'compacted ctrl word carries the ctrl bits of %s, must start with those of %s (input lanes %s)' % (
-                show(tc), show(kept), show_class(combo)), c.win.get(VC))
+                show(tc), show(kept), show_class(combo)), c.win.get(VC), VC)
         if not okn:
             fail(table, (mask, 'count'), 'new-byte count is %d, must be %d = %d - popcount(mask) (input lanes %s)' % (
-                cntv, len(kept), B, show_class(combo)), c.win.get(VN))
+                cntv, len(kept), B, show_class(combo)), c.win.get(VN), VN)
 
     # ---- thorough: every concrete byte value of each lane through one whole cycle from the empty buffer
     concrete = {}
@@ -780,23 +804,28 @@ def sweep(ctx, ir, m, consts, roles):
                     nd, wd = c.next(DBUF)
                     nn = c.next(CNT)[0].known()
                     is_skp = k == 1 and d == SKP_SYMBOL
-                    P = [('D', l) for l in layout(init, W)]
+                    P = [('D', l) for l in layout(init, WD)]
                     out = bool(c.sig(OV).known())
                     Q = (P + [('d', j) for j in range(B) if not (j == i and is_skp)])[B if out else 0:]
-                    got = data_tokens(nd.bits, W)
-                    ok = nn == len(Q) and len(Q) <= W and [got[l] for l in layout(len(Q), W)] == Q
+                    got = data_tokens(nd.bits, WD)
+                    ok = nn == len(Q) and len(Q) <= W and [got[l] for l in layout(len(Q), WD)] == Q
                     if not ok:
                         fail(concrete, i, 'lane %d with ctrl=%d data=%#04x must be %s: buffer becomes %s count %s' % (
-                            i, k, d, 'removed' if is_skp else 'kept', show(got), nn), wd)
+                            i, k, d, 'removed' if is_skp else 'kept', show(got), nn), wd, DBUF)
                     n_cycles += 1
 
     return dict(B=B, W=W, detect=detect, table=table, concrete=concrete, F=F, facts=facts, region=region, reach=reach,
-                lname=lname, ncombos=len(combos), scnt=scnt, sd=sd)
+                lname=lname, ncombos=len(combos), scnt=scnt, sd=sd, notes=notes,
+                locs=dict(vd=ir.signals[VD].loc, vc=ir.signals[VC].loc, vn=ir.signals[VN].loc, cnt=scnt.loc, dbuf=sd.loc, cbuf=sc.loc,
+                          ov=ir.signals[OV].loc, op=ir.signals[OP].loc, sr=ir.signals[SR].loc))
 
 
 def emit_all(ctx, res):
+    for t in res['notes']:
+        ctx.note(t)
     B, W, detect, table, concrete, F, facts = (res[k] for k in ('B', 'W', 'detect', 'table', 'concrete', 'F', 'facts'))
     region, reach, lname, scnt, sd, ncombos = (res[k] for k in ('region', 'reach', 'lname', 'scnt', 'sd', 'ncombos'))
+    L = res['locs']
 
     # ---- obligations
     def emit(rule, key, store, skey, good, loc=None):
@@ -805,29 +834,29 @@ def emit_all(ctx, res):
 
     for i in range(B):
         emit('C32.skp-detect', 'lane%d' % i, detect, i,
-             'lane %d is removed exactly when ctrl[%d] is set and data byte %d is %#x, on all %d input classes' % (i, i, i, SKP_SYMBOL, ncombos))
+             'lane %d is removed exactly when ctrl[%d] is set and data byte %d is %#x, on all %d input classes' % (i, i, i, SKP_SYMBOL, ncombos), L['vn'])
         if ctx.tier == 'thorough':
-            emit('C32.skp-detect', 'lane%d.all-byte-values' % i, concrete, i, 'holds for all 256 byte values x ctrl of lane %d' % i)
+            emit('C32.skp-detect', 'lane%d.all-byte-values' % i, concrete, i, 'holds for all 256 byte values x ctrl of lane %d' % i, L['vn'])
     for mask in range(1 << B):
         for part in ('data', 'ctrl', 'count'):
             emit('C32.compaction', 'mask%d.%s' % (mask, part), table, (mask, part),
-                 'skip mask %s: non-SKP lanes in ascending order packed from lane 0, count %d' % (bin(mask), B - bin(mask).count('1')))
+                 'skip mask %s: non-SKP lanes in ascending order packed from lane 0, count %d' % (bin(mask), B - bin(mask).count('1')),
+                 L[{'data': 'vd', 'ctrl': 'vc', 'count': 'vn'}[part]])
     for n in region:
         for part in ('append.data', 'append.ctrl', 'count', 'idle'):
             emit('C32.buffer-step', 'pending%d.%s' % (n, part), F, (n, part),
-                 'with %d bytes pending the step keeps (pending ++ new non-SKP bytes) minus the word output, in order [%s]' % (n, lname))
+                 'with %d bytes pending the step keeps (pending ++ new non-SKP bytes) minus the word output, in order [%s]' % (n, lname),
+                 L[{'append.data': 'dbuf', 'append.ctrl': 'cbuf', 'count': 'cnt', 'idle': 'cnt'}[part]])
     for n in region:
         if n >= B:
             for part in ('data', 'ctrl'):
                 emit('C32.output-word', 'pending%d.%s' % (n, part), F, (n, 'out.' + part),
-                     'with %d bytes pending the output word is the %d oldest pending bytes in order' % (n, B))
-    emit('C32.output-word', 'source.valid.only-with-full-word', facts, 'valid', 'source.valid implies at least %d bytes pending' % B)
+                     'with %d bytes pending the output word is the %d oldest pending bytes in order' % (n, B), L['op'])
+    emit('C32.output-word', 'source.valid.only-with-full-word', facts, 'valid', 'source.valid implies at least %d bytes pending' % B, L['ov'])
     emit('C32.sink-ready', 'sink.ready.always', facts, 'ready',
-         'sink.ready is 1 in every state of the invariant region %s (the PHY delivers a word every cycle and cannot be stalled)' % sorted(reach))
+         'sink.ready is 1 in every state of the invariant region %s (the PHY delivers a word every cycle and cannot be stalled)' % sorted(reach), L['sr'])
     emit('C32.capacity', 'count.no-wrap', facts, 'wrap', 'every next byte count fits the %d-bit count register' % scnt.w, scnt.loc)
     emit('C32.capacity', 'buffer.holds-region', facts, 'capacity', 'the largest reachable byte count %d fits the %d buffer lanes' % (max(reach), W), sd.loc)
-
-
 
 # ------------------------------------------------------------------------------------------ the physical layer
 def check_layer(ctx):
@@ -873,8 +902,6 @@ def check_layer(ctx):
             takes_ok = takes_ok and d is not None and d.rhs.canon() == '%s.source.%s' % (T, f)
     ctx.ob(R, 'USB3PhysicalLayer.rx_ctc.downstream.ready.constant', const_ok, loc,
            'the downstream of the receive CTC must be always ready (every driver the constant 1, one of them unconditional): %s' % why)
-    ctx.ob(R, 'USB3PhysicalLayer.rx_ctc.source.consumer', takes_ok, rd_all[0].loc,
-           'the module whose ready is fed back must be the one that takes source valid / data / ctrl (unconditionally)')
     dp, dc = sole(T + '.sink.payload'), sole(T + '.sink.ctrl')
     pair = dp is not None and dc is not None and dp.rhs.op == 'sig' and dc.rhs.op == 'sig' and \
         dp.rhs.args[0].name.rsplit('.', 1)[0] == dc.rhs.args[0].name.rsplit('.', 1)[0]
@@ -884,8 +911,9 @@ def check_layer(ctx):
                q.fmt(dp) if dp is not None else [q.fmt(a) for a in pl.drivers(T + '.sink.payload', exact=True)],
                q.fmt(dc) if dc is not None else [q.fmt(a) for a in pl.drivers(T + '.sink.ctrl', exact=True)]))
     sv = pl.drivers(T + '.sink.valid', exact=True)
-    ctx.note('USB3PhysicalLayer: %s.sink.valid <- %s; %s.sink.ready read by %d statement(s); skip_removed -> %s; bytes_in_buffer -> %s' % (
-        T, [a.rhs.canon() for a in sv if isinstance(a.rhs, E)], T, len(pl.readers(T + '.sink.ready')),
+    ctx.note('USB3PhysicalLayer: %s.sink.valid <- %s; %s.sink.ready read by %d statement(s); the module whose ready is fed back %s '
+             'source valid/data/ctrl; skip_removed -> %s; bytes_in_buffer -> %s' % (
+        T, [a.rhs.canon() for a in sv if isinstance(a.rhs, E)], T, len(pl.readers(T + '.sink.ready')), 'takes' if takes_ok else 'does NOT take',
         [a.lhs.canon() for a in pl.readers(T + '.skip_removed')], [a.lhs.canon() for a in pl.readers(T + '.bytes_in_buffer')]))
 
 
